@@ -11,6 +11,9 @@ package main
 //	c09CkptUsesLevels    Checkpoint.IncludesTable consults cp.Levels when there is no URI index (1) or only the index (0)
 //	c09DeployClosesFirst Operator.HandleDeploy closes the previous database before dkv.Open (1)
 //	c09CloseWaits        DB.Close waits for every background task the instance enqueued (1)
+//	c09WritersFenced     nothing can write to (and so enqueue a task of) an instance after its Close returned: a closed
+//	                     flag read by Put/rotateMemtable/enqueue, or processEventBatch under the operator's mutex (1);
+//	                     otherwise 0 - Close drains once, the late-write window stays open (D70)
 //	c09NextWalIsMax      Checkpoint.NextWALID is the maximum WAL id over all handles plus one (1), or taken from one
 //	                     handle by position (0)
 //	c09LoadedGuarded     the cleanup of sst.NewTableFromDocument calls p.deleteFunc only inside `if canDelete {…}` (1)
@@ -410,6 +413,72 @@ func c09Facts(fc *facts) {
 			v = 1
 		}
 		fc.set("c09CloseWaits", v, closeFn != nil, "DB.Close")
+	}
+
+	// c09WritersFenced (D70): 1 only if the source shows that nothing can write to the previous instance once Close has
+	// returned - either DB.Close sets a field of DB that Put / rotateMemtable / enqueue read (a closed flag), or
+	// Operator.processEventBatch takes the operator's mutex (HandleDeploy holds it across Close and dkv.Open).
+	// Anything else is 0: Close drains the tasks enqueued so far and does not stop intake (conservative: the model then
+	// keeps the late-write window open).
+	{
+		fenced := false
+		flags := map[string]bool{}
+		if closeFn != nil && closeFn.Body != nil {
+			ast.Inspect(closeFn.Body, func(x ast.Node) bool {
+				switch n := x.(type) {
+				case *ast.AssignStmt:
+					for _, l := range n.Lhs {
+						if sel, ok := l.(*ast.SelectorExpr); ok {
+							flags[sel.Sel.Name] = true
+						}
+					}
+				case *ast.CallExpr:
+					if sel, ok := n.Fun.(*ast.SelectorExpr); ok && (sel.Sel.Name == "Store" || sel.Sel.Name == "CompareAndSwap" || sel.Sel.Name == "Swap") {
+						if in, ok := sel.X.(*ast.SelectorExpr); ok {
+							flags[in.Sel.Name] = true
+						}
+					}
+				}
+				return true
+			})
+		}
+		if len(flags) > 0 {
+			for _, name := range []string{"Put", "rotateMemtable", "enqueue"} {
+				fn := findFunc(df, "DB", name)
+				if fn == nil || fn.Body == nil {
+					continue
+				}
+				ast.Inspect(fn.Body, func(x ast.Node) bool {
+					if iff, ok := x.(*ast.IfStmt); ok {
+						ast.Inspect(iff.Cond, func(y ast.Node) bool {
+							if sel, ok := y.(*ast.SelectorExpr); ok && flags[sel.Sel.Name] {
+								fenced = true
+							}
+							return true
+						})
+					}
+					return true
+				})
+			}
+		}
+		if peb := findFunc(of, "Operator", "processEventBatch"); peb != nil && peb.Body != nil {
+			for _, st := range peb.Body.List {
+				if es, ok := st.(*ast.ExprStmt); ok {
+					if c, ok := es.X.(*ast.CallExpr); ok {
+						if sel, ok := c.Fun.(*ast.SelectorExpr); ok && (sel.Sel.Name == "Lock" || sel.Sel.Name == "RLock") {
+							if in, ok := sel.X.(*ast.SelectorExpr); ok && in.Sel.Name == "mu" {
+								fenced = true
+							}
+						}
+					}
+				}
+			}
+		}
+		v := uint64(0)
+		if fenced {
+			v = 1
+		}
+		fc.set("c09WritersFenced", v, closeFn != nil, "DB.Close")
 	}
 
 	// --- Checkpoint.NextWALID ---
